@@ -199,8 +199,18 @@ func getField(name string, x ast.Node, parent *flds.Field) (flds.Field, bool) {
 				tag = parseTag(t.Tag.Value)
 			}
 			typ = fmt.Sprintf("%s", t.Type)
+		case *ast.MapType, *ast.ChanType, *ast.FuncType, *ast.InterfaceType, *ast.StructType:
+			// not a column type: the types mentioned inside it (the key of a
+			// map, the element of a channel) must not pass for the field's type
+			typ = fmt.Sprintf("%T", t)
+			return false
 		case *ast.ArrayType:
 			at := n.(*ast.ArrayType)
+			if at.Len != nil {
+				// a fixed-size array is not a repeated column
+				typ = "array"
+				return false
+			}
 			s := fmt.Sprintf("%v", at.Elt)
 			typ = s
 			repeated = true
